@@ -225,6 +225,7 @@ type Node struct {
 	Inbox    []*Msg
 	seq      int
 	Outbox   map[uint64][]*Msg // own messages by height (what the reactor would keep gossiping)
+	Seen     map[string]bool   // ids of messages already handed to this node's state machine
 	Killed   bool              // ApplyBlock failed after commit (cmn.Kill path)
 }
 
@@ -459,6 +460,10 @@ func (n *Net) Deliver(to int, m *Msg) string {
 		return "dead"
 	}
 	before := len(node.App.Blocks)
+	if node.Seen == nil {
+		node.Seen = map[string]bool{}
+	}
+	node.Seen[m.ID] = true
 	peer := fmt.Sprintf("peer%d", m.From)
 	if m.From == to {
 		peer = ""
@@ -505,26 +510,110 @@ func MsgHeight(m cs.ConsensusMessage) uint64 {
 	return 0
 }
 
-// Gossip re-sends to node `to` everything its correct peers produced for its current height (what the
-// reactor's gossip routines do continuously; duplicates are harmless).
+// Gossip hands node `to` what the reactor's gossip routines of its correct peers would send it: votes (of any
+// validator, including Byzantine ones the peer has seen) it lacks, the current proposal and missing block parts,
+// and for a lagging node the commit and the parts of the block its peers already committed.
 func (n *Net) Gossip(to int) int {
 	node := n.Nodes[to]
 	if node.Byz || node.Dead != "" {
 		return 0
 	}
-	h := node.CS.VerifRoundState().Height
+	rs := node.CS.VerifRoundState()
+	h := rs.Height
 	k := 0
+	push := func(from int, key string, payload cs.ConsensusMessage) {
+		id := fmt.Sprintf("g%d:%s", from, key)
+		for _, q := range node.Inbox {
+			if q.ID == id {
+				return
+			}
+		}
+		node.Inbox = append(node.Inbox, &Msg{ID: id, From: from, Payload: payload})
+		k++
+	}
+	claimed := map[string]bool{}
+	lacksVote := func(v *types.Vote) bool {
+		var vs *types.VoteSet
+		if v.Type == types.VoteTypePrevote {
+			vs = rs.Votes.Prevotes(v.Round)
+		} else {
+			vs = rs.Votes.Precommits(v.Round)
+		}
+		if vs == nil {
+			return true
+		}
+		if ba := vs.BitArrayByBlockID(v.BlockID); ba != nil && ba.GetIndex(v.ValidatorIndex) {
+			return false
+		}
+		// a conflicting vote is only accepted for a block id some peer claimed a majority for
+		return vs.GetByIndex(v.ValidatorIndex) == nil || claimed[fmt.Sprintf("%d/%d/%s", v.Round, v.Type, v.BlockID.Key())]
+	}
+	claim := func(from int, round int, typ byte, id types.BlockID) {
+		// the reactor's queryMaj23Routine / VoteSetMaj23Message path: peers tell each other about majorities they see
+		key := fmt.Sprintf("%d/%d/%s", round, typ, id.Key())
+		if !claimed[key] {
+			claimed[key] = true
+			rs.Votes.SetPeerMaj23(round, typ, fmt.Sprintf("peer%d", from), id)
+		}
+	}
+	sendParts := func(from int, ps *types.PartSet) {
+		if ps == nil || rs.ProposalBlockParts == nil || rs.ProposalBlock != nil || !rs.ProposalBlockParts.HasHeader(ps.Header()) {
+			return
+		}
+		for i := 0; i < ps.Total(); i++ {
+			if pt := ps.GetPart(i); pt != nil && rs.ProposalBlockParts.GetPart(i) == nil {
+				push(from, fmt.Sprintf("part/%d/%x/%d", h, ps.Header().Hash, i), &cs.BlockPartMessage{Height: h, Round: rs.Round, Part: pt})
+			}
+		}
+	}
 	for _, peer := range n.Nodes {
-		if peer.Byz || peer.Idx == to {
+		if peer.Byz || peer.Idx == to || peer.Dead != "" {
 			continue
 		}
-		for _, m := range peer.Outbox[h] {
-			node.Inbox = append(node.Inbox, m)
-			k++
+		prs := peer.CS.VerifRoundState()
+		switch {
+		case prs.Height == h:
+			for r := 0; r <= prs.Votes.Round()+1; r++ {
+				for _, vs := range []*types.VoteSet{prs.Votes.Prevotes(r), prs.Votes.Precommits(r)} {
+					if vs == nil {
+						continue
+					}
+					if id, ok := vs.TwoThirdsMajority(); ok {
+						claim(peer.Idx, r, vs.Type(), id)
+					}
+					for i := 0; i < vs.Size(); i++ {
+						if v := vs.GetByIndex(i); v != nil && lacksVote(v) {
+							push(peer.Idx, fmt.Sprintf("vote/%d/%d/%d/%d", h, v.Round, v.Type, i), &cs.VoteMessage{Vote: v})
+						}
+					}
+				}
+			}
+			if prs.Proposal != nil && prs.Round == rs.Round && rs.Proposal == nil {
+				push(peer.Idx, fmt.Sprintf("proposal/%d/%d", h, prs.Round), &cs.ProposalMessage{Proposal: prs.Proposal})
+			}
+			sendParts(peer.Idx, prs.ProposalBlockParts)
+		case prs.Height > h && int(h) <= len(peer.App.SeenCommits):
+			commit := peer.App.SeenCommits[h-1]
+			claim(peer.Idx, commit.Round(), types.VoteTypePrecommit, commit.BlockID)
+			for i, v := range commit.Precommits {
+				if v != nil && lacksVote(v) {
+					push(peer.Idx, fmt.Sprintf("vote/%d/%d/%d/%d", h, v.Round, v.Type, i), &cs.VoteMessage{Vote: v})
+				}
+			}
+			sendParts(peer.Idx, peer.App.Parts[h-1])
 		}
-		// precommits of height h-1 still matter while waiting in NewHeight (LastCommit stragglers): skipped
 	}
 	return k
+}
+
+// partHeaderOf finds the part-set header of the proposal `peer` made at (h, round), if any.
+func partHeaderOf(peer *Node, h uint64, round int) types.PartSetHeader {
+	for _, m := range peer.Outbox[h] {
+		if pm, ok := m.Payload.(*cs.ProposalMessage); ok && pm.Proposal.Round == round {
+			return pm.Proposal.BlockPartsHeader
+		}
+	}
+	return types.PartSetHeader{Total: -1}
 }
 
 // Describe renders a message canonically (content only, no signatures or timestamps).
